@@ -286,6 +286,7 @@ func checkC14(p *Prog, res *Result, tier string) {
 	res.rule("C14-R5", "adapters evaluate conditions atomically with the write (C11-R1/R2)", 15)
 	res.rule("C14-R7", "the record bytes handed to the engine (and remembered as last observed) are not a window into a reusable buffer", 2)
 	res.rule("C14-R8", "the lock record is written without an engine TTL (C17-R5): on engines that expire keys themselves an accepted record would vanish inside its lease and a standby's create would succeed", 2)
+	res.rule("C14-R9", "the bytes a candidate observed are not rewritten under it: the in-process engine, whose Get returns the stored slice itself, never writes a stored value in place (C11-R13); otherwise the compare-and-swap of a stale candidate compares the store with itself and succeeds", 2)
 	res.rule("C14-R6", "the lock's Get / Create / Update are driven by the elector only: repository code calls none of them (a Get from elsewhere replaces the bytes the pending round's compare-and-swap expects)", 1)
 	res.Stats["roles"] = map[string]string{"lock": e.lockT.Obj().Name(), "key": e.keyF.Name(), "lastObserved": e.lastF.Name(), "timestamp": e.tsoF.Name(), "observer": funcName(e.observer)}
 
@@ -484,6 +485,12 @@ func checkC14(p *Prog, res *Result, tier string) {
 			res.add("C14-R5", o.Rule+" "+o.Construct, o.Status, o.Pos, o.Detail)
 		}
 	}
+	// R9: what a candidate observed stays what it observed (C11-R13)
+	for _, o := range sub.Obls {
+		if o.Rule == "C11-R13" {
+			res.add("C14-R9", o.Rule+" "+o.Construct, o.Status, o.Pos, o.Detail)
+		}
+	}
 	// R8: the lock record is written without an engine TTL (C17-R5)
 	for _, o := range p.subResult("C17", tier).Obls {
 		if o.Rule == "C17-R5" && strings.Contains(o.Construct, "TTL operand") && strings.Contains(o.Construct, "/election.") {
@@ -565,7 +572,75 @@ func checkC15(p *Prog, res *Result, tier string) {
 				}
 			}
 		}
-		if all && n > 0 {
+		// .. on every path: each 64-bit operand of the formatting is the field whichever way control came (a constant
+		// merged in for "no holder" makes the next leader start from revision 0)
+		var constLeaf ssa.Value
+		{
+			seen := map[ssa.Value]bool{}
+			var walk func(v ssa.Value, d int)
+			walk = func(v ssa.Value, d int) {
+				if v == nil || seen[v] || d > 40 {
+					return
+				}
+				seen[v] = true
+				if isUint64(v.Type()) {
+					for _, alt := range resolveAll(v) {
+						if cv, ok := alt.(*ssa.Convert); ok {
+							alt = cv.X
+						}
+						if _, isConst := alt.(*ssa.Const); isConst {
+							constLeaf = alt
+						}
+						if _, isZero := alt.(zeroValueMarker); isZero {
+							constLeaf = alt
+						}
+					}
+					return
+				}
+				for _, x := range resolveAll(v) {
+					if x != v {
+						walk(x, d+1)
+					}
+				}
+				switch x := v.(type) {
+				case *ssa.Call:
+					for _, a := range x.Common().Args {
+						walk(a, d+1)
+					}
+				case *ssa.Slice:
+					walk(x.X, d+1)
+				case *ssa.Alloc:
+					for _, ref := range *x.Referrers() {
+						if ia, ok := ref.(*ssa.IndexAddr); ok {
+							for _, r2 := range *ia.Referrers() {
+								if st, ok := r2.(*ssa.Store); ok && st.Addr == ssa.Value(ia) {
+									walk(st.Val, d+1)
+								}
+							}
+						}
+					}
+				case *ssa.MakeInterface:
+					walk(x.X, d+1)
+				case *ssa.BinOp:
+					walk(x.X, d+1)
+					walk(x.Y, d+1)
+				case *ssa.Phi:
+					for _, e := range x.Edges {
+						walk(e, d+1)
+					}
+				case *ssa.ChangeType:
+					walk(x.X, d+1)
+				}
+			}
+			for _, b := range f.Blocks {
+				if ret, ok := b.Instrs[len(b.Instrs)-1].(*ssa.Return); ok && b.Comment != "recover" {
+					walk(ret.Results[0], 0)
+				}
+			}
+		}
+		if all && n > 0 && constLeaf != nil {
+			res.bad("C15-R2", construct, p.pos(f.Pos()), "on some path Describe() formats a constant where the lock's engine timestamp belongs (e.g. when the observed record has no holder): the node that takes over an explicitly released lock parses 0 as its start revision and hands out revisions the old leader already used")
+		} else if all && n > 0 {
 			res.ok("C15-R2", construct, p.pos(f.Pos()), "every returned description is formatted from the timestamp field")
 		} else {
 			res.bad("C15-R2", construct, p.pos(f.Pos()), "Describe() does not print the lock's engine timestamp: the new leader parses something else as its start revision")
